@@ -12,7 +12,7 @@
 (* trace is always consumed to its end and every property that failed is   *)
 (* reported with the first line where it failed.                           *)
 (***************************************************************************)
-EXTENDS MxSem, Json, IOUtils, TLCExt
+EXTENDS MxProps, Json, IOUtils, TLCExt
 
 Traces == JsonDeserialize(IOEnv.TRACE_FILE)
 
@@ -150,153 +150,40 @@ InputsDetermined(e) ==
               "set_recalc"} \/ ~Accepted(e)
 
 -----------------------------------------------------------------------------
-(* Formula-execution log helpers.                                          *)
-
-Fx(e)         == e.fx
-Enters(e)     == {Fx(e)[i][2] : i \in {j \in 1..Len(Fx(e)) : Fx(e)[j][1] = "enter"}}
-ExitIdx(e)    == {j \in 1..Len(Fx(e)) : Fx(e)[j][1] = "exit"}
-EnterIdx(e)   == {j \in 1..Len(Fx(e)) : Fx(e)[j][1] = "enter"}
-UnwindIdx(e)  == {j \in 1..Len(Fx(e)) : Fx(e)[j][1] = "unwind"}
-
-\* nodes whose formula was left by an exception (they must hold no value)
-Unwound(e)    == {Fx(e)[j][2] : j \in UnwindIdx(e)}
-\* number of trailing unwind records = depth of the chain the escaping
-\* exception travelled through
-RECURSIVE TrailUnw(_, _)
-TrailUnw(e, j) == IF j >= 1 /\ Fx(e)[j][1] = "unwind" THEN 1 + TrailUnw(e, j - 1) ELSE 0
-\* maximal simultaneous depth of formula frames during the event
-RECURSIVE DepthAt(_, _)
-DepthAt(e, j) == IF j = 0 THEN 0
-                 ELSE DepthAt(e, j - 1) + (IF Fx(e)[j][1] = "enter" THEN 1 ELSE -1)
-MaxDepth(e)   == IF Len(Fx(e)) = 0 THEN 0
-                 ELSE LET S == {DepthAt(e, j) : j \in 1..Len(Fx(e))} IN
-                      CHOOSE x \in S : \A y \in S : y <= x
-
-\* expected traceback, outermost first: the frames the escaping exception
-\* unwound, each with the line it was at
-ChainOf(e) ==
-    LET k == TrailUnw(e, Len(Fx(e)))
-        n == Len(Fx(e)) IN
-    [i \in 1..k |-> <<Fx(e)[n - i + 1][2], Fx(e)[n - i + 1][4]>>]
-
------------------------------------------------------------------------------
-(* Graph helpers on the logged dependency graph.                           *)
-
-RECURSIVE ReachFrom(_, _, _)
-ReachFrom(E, front, seen) ==
-    LET nxt == {x[2] : x \in {y \in E : y[1] \in front}} \ seen IN
-    IF nxt = {} THEN seen ELSE ReachFrom(E, nxt, seen \cup nxt)
-GraphAcyclic(N, E) == \A n \in N : n \notin ReachFrom(E, {n}, {})
-
------------------------------------------------------------------------------
-(* The property predicates.  Each yields a set of labels (empty = holds).  *)
+(* Binding of a logged event to the property predicates of MxProps.        *)
 
 DataL(e)   == PairsToFun(e.post.data)
 InputsL(e) == Range(e.post.inputs)
 TgN(e)     == Range(e.post.tgn)
 TgE(e)     == {<<x[1], x[2]>> : x \in Range(e.post.tge)}
+IdleL(e)   == /\ e.post.exec.stack = 0 /\ e.post.exec.refstack = 0 /\ e.post.exec.idx = 0
+              /\ e.post.exec.counter = 0 /\ ~e.post.exec.executing
+Tag        == <<tid, l>>
 
-Lbl(b, s) == IF b THEN {} ELSE {s}
-
-\* predicates on the quiescent state after any event; D2 = definitions after it
-StateViol(e, D2) ==
-    LET dl == DataL(e)
-        il == InputsL(e)
-        held == DOMAIN dl
-        alive == {n \in held : NodeExists(D2, n)}
-        calc  == alive \ il
-        cellnodes == {n \in TgN(e) : n[3] # "" /\ n[4] # ObjKey}
-    IN
-      Lbl(held = alive, "C13.NoResidue")
-      \cup Lbl(\A n \in calc : dl[n] = Den(D2, n), "C02.NoStale")
-      \cup Lbl(\A n \in alive : IsCachedNode(D2, n), "C09.UncachedHoldNothing")
-      \cup Lbl(InputsDetermined(e) => il = DOMAIN D2.inp, "C06.InputsPersist")
-      \cup Lbl(\A n \in il \cap DOMAIN D2.inp : n \in held /\ dl[n] = D2.inp[n], "C06.InputWins")
-      \cup Lbl(cellnodes = held, "C08.GraphEqCache")
-      \cup Lbl(GraphAcyclic(TgN(e), TgE(e)), "C08.Acyclic")
-      \cup Lbl(\A x \in TgE(e) : x[1] \in TgN(e) /\ x[2] \in TgN(e), "C08.EdgesInNodes")
-      \cup Lbl(e.post.exec.stack = 0 /\ e.post.exec.refstack = 0 /\ e.post.exec.idx = 0
-               /\ e.post.exec.counter = 0 /\ ~e.post.exec.executing, "C05.ExecutorIdle")
-      \cup Lbl(e.post.sane, "C12.SanityChecks")
-
-\* dependency listings reported by preds()/succs() for every computed element
-DepsViol(e, D2) ==
-    LET il == InputsL(e)
-        rows == {r \in Range(e.post.deps) : NodeExists(D2, r[1]) /\ r[1] \notin il}
-        PredsOf(r) == Range(r[2])
-        SuccsOf(r) == Range(r[3])
-    IN
-      Lbl(\A r \in rows : PredsOf(r) = GraphPreds(D2, r[1]), "C08.PredsExact")
-      \cup Lbl(\A r \in rows : \A q \in rows :
-                 (r[1] \in PredsOf(q)) <=> (q[1] \in SuccsOf(r)), "C08.SuccsInverse")
-
-CallViol(e, D2) ==
-    LET n    == NodeOfEv(D, e)
-        exp  == Den(D, n)
-        dl   == DataL(e)
-        cachedT == IsCachedNode(D, n)
-        deep == e.res = ErrDeep
-        \* a DeepReferenceError is history dependent by design: it is legitimate
-        \* exactly when the chain of executing formulas reached the limit
-        deepOK == "maxdepth" \in DOMAIN Tr.hdr /\ MaxDepth(e) >= Tr.hdr.maxdepth + 1
-    IN
-      Lbl(IF deep THEN deepOK ELSE e.res = exp, "C01.Transparent")
-      \cup Lbl(\A m \in Enters(e) : IsCachedNode(D, m) => m \notin DOMAIN data, "C01.ComputedOnce")
-      \cup Lbl(\A m \in Enters(e) : IsCachedNode(D, m) =>
-                  Cardinality({j \in ExitIdx(e) : Fx(e)[j][2] = m}) <= 1, "C01.ComputedOnceInCall")
-      \cup Lbl((cachedT /\ ~IsErr(e.res)) => (n \in DOMAIN dl /\ dl[n] = e.res), "C01.SameElement")
-      \cup Lbl((~cachedT) => n \in Enters(e), "C09.UncachedReexecuted")
-      \cup Lbl(IsErr(e.res) => (Unwound(e) \cap DOMAIN dl = {}), "C05.FailedHoldNothing")
-      \cup Lbl(\A j \in ExitIdx(e) :
-                  LET m == Fx(e)[j][2] IN
-                  (IsCachedNode(D, m) /\ m \notin Unwound(e) /\ Fx(e)[j][3] # NoneV)
-                      => (m \in DOMAIN dl /\ dl[m] = Fx(e)[j][3]), "C05.CompletedKept")
-      \cup Lbl(DOMAIN data \subseteq DOMAIN dl, "C06.CallDiscardsNothing")
-      \cup Lbl(\A m \in DOMAIN data \cap DOMAIN dl : dl[m] = data[m], "C06.CallChangesNothing")
-
-TracebackViol(e) ==
-    IF ~("tb" \in DOMAIN e) THEN {}
-    ELSE LET chain == ChainOf(e)
-             tb == e.tb
-             \* NoneReturnedError is raised after the formula returned: the
-             \* element that returned None closes the listing, without a line
-             noneTail == e.res = ErrNone
-             want == IF noneTail /\ Len(tb) > 0 THEN Len(chain) + 1 ELSE Len(chain)
-         IN
-           Lbl(Len(tb) = want, "C17.TracebackLength")
-           \cup Lbl(\A i \in 1..Len(chain) : i <= Len(tb) => tb[i][1] = chain[i][1], "C17.TracebackNodes")
-           \cup Lbl(\A i \in 1..Len(chain) : i <= Len(tb) => tb[i][2] = chain[i][2], "C17.TracebackLines")
-
-EditViol(e, D2) ==
-    LET dl == DataL(e)
-        pre == DOMAIN data
-    IN
-    IF e.op \in {"set_value", "clear_at"} /\ Accepted(e)
-    THEN LET n == NodeOfEv(D, e)
-             gone == {x \in pre : x # n /\ ~IsInput(D, x) /\ n \in DepsStar(D, x)}
-             recalc == Opt(Tr.hdr, "recalc", FALSE)
-             want == IF e.op = "set_value" THEN (pre \ gone) \cup {n} ELSE pre \ (gone \cup {n})
-         IN
-           IF recalc /\ e.op = "set_value"
-           THEN Lbl(want \subseteq DOMAIN dl /\
-                    \A x \in gone : (~IsErr(Den(D2, x))) => x \in DOMAIN dl, "C06.RecalcEqLazy")
-                \cup Lbl(\A x \in (pre \ (gone \cup {n})) \cap DOMAIN dl : dl[x] = data[x], "C06.SurvivorsUnchanged")
-           ELSE Lbl(DOMAIN dl = want, "C06.ExactDiscard")
-                \cup Lbl(\A x \in (pre \ (gone \cup {n})) \cap DOMAIN dl : dl[x] = data[x], "C06.SurvivorsUnchanged")
-                \cup Lbl(Len(e.fx) = 0, "C06.NotRecomputed")
+EventViol(e, D2) ==
+    LET dl == DataL(e) IN
+    IF e.op = "call"
+    THEN IF NodeExists(D, <<e.c[1], e.c[2], e.c[3], <<>>>>)
+         THEN CallLabels(Tag, D, NodeOfEv(D, e), e.res, data, dl, e.fx,
+                         Opt(Tr.hdr, "maxdepth", 0))
+              \cup (IF "tb" \in DOMAIN e THEN TracebackLabels(Tag, e.res, e.fx, e.tb) ELSE {})
+         ELSE {}
     ELSE IF ~Accepted(e)
-    THEN Lbl(e.post.defs = pdefs, "C11.RejectedUnchanged")
-         \cup Lbl(DOMAIN dl = pre /\ \A x \in pre : dl[x] = data[x], "C11.RejectedKeepsValues")
+    THEN RejectedLabels(Tag, pdefs, e.post.defs, data, dl)
+    ELSE IF e.op \in {"set_value", "clear_at"}
+    THEN ValueEditLabels(Tag, D, D2, e.op = "set_value", NodeOfEv(D, e), data, dl, e.fx,
+                         Opt(Tr.hdr, "recalc", FALSE))
     ELSE {}
 
 AllViol(e) ==
     LET D2 == DAfter(e) IN
-    StateViol(e, D2)
-    \cup (IF "deps" \in DOMAIN e.post THEN DepsViol(e, D2) ELSE {})
-    \cup (IF e.op = "call"
-          THEN (IF NodeExists(D, <<e.c[1], e.c[2], e.c[3], <<>>>>)
-                THEN CallViol(e, D2) \cup TracebackViol(e) ELSE {})
-          ELSE EditViol(e, D2))
+    StateLabels(Tag, D2, DataL(e), InputsL(e), TgN(e), TgE(e), IdleL(e), e.post.sane,
+                InputsDetermined(e))
+    \cup (IF "deps" \in DOMAIN e.post
+          THEN DepsLabels(Tag, D2, InputsL(e),
+                          {<<r[1], Range(r[2]), Range(r[3])>> : r \in Range(e.post.deps)})
+          ELSE {})
+    \cup EventViol(e, D2)
 
 -----------------------------------------------------------------------------
 TInit ==
